@@ -33,6 +33,8 @@ def begin_structure(ck, agg, nn):
     mix = P.cls("network.mixins", "NetworkMixin")
     f = P.method(mix, "_begin")
     st, node = nn.fresh()
+    before = dict(st.heap[node.ident].fields)
+    routing = {net.FN("_addr"), "_mask", "_mask_inv", net.FN("_parent"), "_parent_pipe", net.FN("_net_lvl")}
     outs = nn.run(f, node, [node_bits("n_addr")], st, limits=Limits(max_paths=4000, loop_unroll=8, depth=10, concrete_loop=20))
     levels = set()
     for out in outs:
@@ -40,6 +42,11 @@ def begin_structure(ck, agg, nn):
             agg.add("R04.6", f, "_begin() does not raise for a 12-bit address", False, "raises %s" % out.value.exc)
             continue
         c = out.state.heap[node.ident].fields
+        # frame condition: re-addressing changes the routing attributes (and the radio) and nothing else - the timeouts, limits and
+        # switches the application configured survive a node_address assignment, a mesh renew / release
+        changed = sorted(k for k, v in c.items() if k not in routing and k in before and hasattr(v, "key") and hasattr(before[k], "key") and not isinstance(v, Ref) and norm(v).key() != norm(before[k]).key())
+        agg.add("R04.6", f, "_begin() leaves the node's other attributes (timeouts, limits, switches) as the application set them", not changed,
+                "_begin() overwrites %s - a value the application configured is silently replaced whenever the node is re-addressed" % ", ".join(changed))
         lvl = const_of(norm(c.get(net.FN("_net_lvl"))))
         agg.add("R04.1", f, "the network level is a definite number on every path", isinstance(lvl, int) and 0 <= lvl <= T.MAX_LEVEL, "level %r" % (c.get(net.FN("_net_lvl")),))
         if not isinstance(lvl, int):
@@ -308,6 +315,38 @@ def direction(ck, agg):
     return n
 
 
+def poll_levels(ck, agg):
+    """R04.10: the NETWORK_POLL a joining mesh node multicasts to level L is handed to the transmitter as level L's *address*
+    (0, 0o1, 0o10, 0o100 - one digit 1 at position L) - not as the level number; the poll itself is a complete NETWORK_POLL frame from the
+    unassigned address"""
+    from . import c07
+    P = ck.prog
+    nn = net.NetNode(ck, "rf24_mesh", "RF24MeshNoMaster")
+    mix = P.cls("network.mixins", "NetworkMixin")
+    nn.model.opaque[P.method(mix, "_write").qualname] = c07.make_summary(nn, agg, "_write")
+    nn.model.opaque[P.method(mix, "_net_update").qualname] = lambda model, it, st, fr, node, target, args, kw: [(st, Const(0))]
+    f = P.method(nn.cls, "_make_contact")
+    K = T.CONSTANTS
+    n = 0
+    for lvl in range(0, 4):
+        st, node = nn.fresh(fields={net.FN("_addr"): K["NETWORK_DEFAULT_ADDR"]})
+        for out in nn.run(f, node, [Const(lvl)], st, limits=Limits(max_paths=2000, loop_unroll=1, depth=10, concrete_loop=3)):
+            wr = [e for e in out.trace if e.kind == "summary" and e.data[0] == "_write"]
+            if not wr:
+                continue
+            n += 1
+            a0, a1 = [const_of(norm(x)) for x in wr[0].data[3]["args"][:2]]
+            want = (1 << (3 * (lvl - 1))) if lvl else 0
+            agg.add("R04.10", f, "a poll for level L is multicast to the address of level L", a0 == want and a1 == K["TX_MULTICAST"] and len(wr) == 1,
+                    "_make_contact(%d): _write(%r, send type %r), the address of level %d is %s" % (lvl, a0, a1, lvl, oct(want)), wr[0].node)
+            h = wr[0].data[3].get("header", {})
+            okh = const_of(norm(h.get("message_type"))) == K["NETWORK_POLL"] and const_of(norm(h.get("from_node"))) == K["NETWORK_DEFAULT_ADDR"] and const_of(norm(h.get("to_node"))) == K["NETWORK_MULTICAST_ADDR"]
+            agg.add("R04.10", f, "the poll is a NETWORK_POLL frame from the unassigned address to the multicast address", okh, "_make_contact(%d): header %r" % (lvl, {k: h.get(k) for k in ("message_type", "from_node", "to_node")}))
+            break
+    agg.add("R04.10", f, "_make_contact() transmits a poll for every level 0..3 (anchor)", n == 4, "%d of 4 levels reach the transmitter" % n)
+    return n
+
+
 def reconfigure(ck, agg):
     """R04.8: assigning node_address re-runs _begin() for *every* valid value - also the current one (docs/topology: after changing
     address_prefix / address_suffix / allow_multicast the address must be re-assigned so that the six pipes are re-opened on the new
@@ -376,6 +415,12 @@ def run(ck):
     # "pipe addresses never collide": byte k of a pipe address depends on exactly octal digit k-1 of the node address, for all four digits (R14.4)
     c14.pipe_address(ck, agg, net.NetNode(ck, "rf24_network", "RF24Network"))
     n8 = direction(ck, agg)
+    # "no other node listens on that address": after its own transmissions a node's pipe 0 is back on the address _begin() gave it - the
+    # radio layer's pipe-0 discipline (R08.x, shared with C08)
+    from . import c08
+    from .radio import Radio
+    c08.run_for(ck, Radio(ck), agg)
+    poll_levels(ck, agg)
     agg.flush()
     ck.floor("R04.9", "write() paths reaching the transmitter", n8, 4)
     ck.floor("R04.8", "node_address re-assignment scenarios", n6, 4)
